@@ -558,6 +558,12 @@ func (c *Ctx) evalCallWithArgs(x *ast.CallExpr, s *State, pre []Value) Value {
 	}
 	c.atClauses(s, fmt.Sprintf("call %s#%d", calleeShortName(x), c.callOrd[x]), x.Pos())
 	c.atArgs = nil
+	for _, so := range c.con.SpawnOnly {
+		if so == calleeShortName(x) && c.dry == 0 {
+			c.curTags = c.con.SpawnOnlyTags
+			c.oblige(s, "spawn-only:"+so, "this function does not wait for "+so+" ("+c.con.SpawnOnlyWhy+"): it is started with `go`, never called", x.Pos(), "false", c.con.SpawnOnlyTags)
+		}
+	}
 	return c.callFunc(x, s, callee, recv, args)
 }
 
@@ -903,6 +909,13 @@ func (c *Ctx) inlineFunc(x *ast.CallExpr, s *State, callee *types.Func, recv Val
 
 func (c *Ctx) applyContract(x *ast.CallExpr, s *State, k *Contract, sig *types.Signature, callee *types.Func, recv Value, args []Value, key string) Value {
 	c.calleesUsed[key] = true
+	if c.eng.callProbes && c.dry == 0 && !s.dead && len(k.Ensures) > 0 {
+		before := s.assumes
+		defer func() {
+			c.obls = append(c.obls, &Oblig{Name: fmt.Sprintf("%s/smoke(after %s#%d)", c.con.Key, key, c.callOrd[x]), Kind: "smoke", Func: c.con.Key,
+				Assumes: s.assumes, Before: before, Goal: "false", Pos: c.eng.fset.Position(x.Pos()), Smoke: true, decls: c})
+		}()
+	}
 	env := c.calleeEnv(k, sig, callee, recv, args, s)
 	if callee == nil {
 		// contract of a function value used inside this function: it may mention the enclosing function's variables
